@@ -7,7 +7,7 @@ Case format (all JSON):
               "in": {"x": SRC, "y": SRC},        # fields of the encoder task; absent field = default None
               "split": None | ["x"] | ["outer","x","y"] | ["inner","x","y"],
               "combine": ["N0.x", "N1.y", ...]   # dotted axis names (own fields are given dotted too)
-              "wf": None | {...}                 # nested workflow (see gen_source)
+              "wf": false | true                 # the node is a nested workflow: ia = Enc(tag, x, y, z); ib = Enc(tag, ia.out)
              }, ...],
    "out": ["N2", ...]}                           # workflow outputs: out of these nodes, in this order
 
@@ -62,6 +62,7 @@ def gen_source(case: dict, uid: str) -> tuple[str, dict]:
     """Python source of a module defining the workflow class `W_<uid>`; returns (source, workflow input values)."""
     wf_inputs: dict = {}
     body = []
+    inner: list[str] = []
     for nd in case["nodes"]:
         name = nd["name"]
         split = nd.get("split")
@@ -70,7 +71,17 @@ def gen_source(case: dict, uid: str) -> tuple[str, dict]:
         for f, src in nd["in"].items():
             e = _src_expr(src, wf_inputs)
             (skw if f in sfields else kw).append(f"{f}={e}")
-        expr = f"Enc({', '.join(kw)})"
+        if nd.get("wf"):
+            inner.append(
+                f"@workflow.define(outputs=['out'])\n"
+                f"def I_{uid}_{name}(x=None, y=None, z=None):\n"
+                f"    ia = workflow.add(Enc(tag={name!r}, x=x, y=y, z=z), name='ia')\n"
+                f"    ib = workflow.add(Enc(tag={name!r}, x=ia.out), name='ib')\n"
+                f"    return ib.out\n"
+            )
+            expr = f"I_{uid}_{name}({', '.join(kw[1:])})"
+        else:
+            expr = f"Enc({', '.join(kw)})"
         if split:
             if split[0] == "outer":
                 spl = repr(list(split[1:]))
@@ -91,7 +102,7 @@ def gen_source(case: dict, uid: str) -> tuple[str, dict]:
     src = (
         "import typing as ty\n"
         "from pydra.compose import workflow\n"
-        "from harness.engines.wfstate import Enc\n\n"
+        "from harness.engines.wfstate import Enc\n\n" + "\n".join(inner) + "\n"
         f"@workflow.define(outputs={outnames!r})\n"
         f"def W_{uid}({args}):\n" + "\n".join(body) + f"\n    return {ret}\n"
     )
@@ -147,8 +158,8 @@ def run_case(case: dict, scratch: Path, keep_exc: bool = False) -> dict:
         if res.errored:
             return {"error": "Errored", "phase": "run"}
         outs = [canon(getattr(res.outputs, f"o{i}")) for i in range(len(case["out"]))]
-        jobs = count_jobs(cache_root, case)
-        return {"out": outs, "jobs": jobs}
+        jobs, jobins = count_jobs(cache_root, case)
+        return {"out": outs, "jobs": jobs, "jobins": jobins}
     except Exception as e:  # noqa: BLE001  (every exception is an observable here)
         root = e  # the Submitter re-raises the original exception (with a note), no wrapping
         r = {"error": core.exc_tag(root), "phase": phase}
@@ -168,21 +179,28 @@ def run_case(case: dict, scratch: Path, keep_exc: bool = False) -> dict:
         sys.modules.pop(f"wfgen_{uid}", None)
 
 
-def count_jobs(cache_root: Path, case: dict) -> dict:
-    """Per-node number of distinct job results in the cache root, read from the saved job inputs' tag."""
+def count_jobs(cache_root: Path, case: dict) -> tuple[dict, dict]:
+    """Per node: the number of job results in the cache root and the sorted list of the jobs' inputs `[x, y, z]` (as
+    canonical JSON strings), read from the saved jobs.  Jobs of the outer workflow's nodes carry the node's name; the inner
+    jobs of a nested-workflow node are called `ia`/`ib` and are not counted."""
     import cloudpickle as cp
 
-    counts = {nd["name"]: 0 for nd in case["nodes"]}
-    for d in sorted(Path(cache_root).glob("python-*")):
+    names = {nd["name"] for nd in case["nodes"]}
+    counts = {n: 0 for n in names}
+    ins: dict[str, list[str]] = {n: [] for n in names}
+    for d in sorted(Path(cache_root).iterdir()):
         jf = d / "_job.pklz"
-        if not jf.exists() or not (d / "_result.pklz").exists():
+        if not d.is_dir() or not jf.exists() or not (d / "_result.pklz").exists():
             continue
         try:
             with open(jf, "rb") as f:
                 job = cp.load(f)
-            tag = job.task.tag
+            name = job.name
+            t = job.task
+            vals = [canon(getattr(t, fld, None)) for fld in ("x", "y", "z")]
         except Exception:  # noqa: BLE001
             continue
-        if tag in counts:
-            counts[tag] += 1
-    return counts
+        if name in names:
+            counts[name] += 1
+            ins[name].append(json.dumps(vals, sort_keys=True))
+    return counts, {n: sorted(v) for n, v in ins.items()}
